@@ -946,6 +946,39 @@ def data_harness(fx, e, m, case, hname, props, tier):
     return body
 
 
+def typed_submsg_harness(fx, e, hname, props, tier):
+    """C08, builder half for typed payloads: the payload is the canonical JSON of the argument (one value) or of the
+    tuple of arguments (several), values < 10.  The decode half (from_json in dispatch_reply) is out of reach."""
+    n = len(e["payload"])
+    on = "Always" if (e["always"] or (e["succ"] and e["err"])) else ("Success" if e["succ"] else "Error")
+    vals = ["v%d" % k for k in range(n)]
+    lines = ["        " + " ".join("let %s: u8 = kani::any(); kani::assume(%s < 10);" % (v, v) for v in vals)]
+    lines.append("        let base = WasmMsg::ClearAdmin { contract_addr: String::new() };")
+    args = ", ".join("%s as %s" % (v, t) for v, t in zip(vals, e["payload"]))
+    lines.append("        let r: StdResult<SubMsg<Empty>> = sv::SubMsgMethods::<Empty>::%s(base, %s);" % (e["name"], args))
+    lines.append("        let r = core::mem::ManuallyDrop::new(r);")
+    lines.append("        match &*r {")
+    lines.append("            Ok(sub) => {")
+    lines.append("                assert!(sub.id == sv::%s_REPLY_ID && matches!(sub.reply_on, ReplyOn::%s) && sub.gas_limit.is_none());" % (e["name"].upper(), on))
+    lines.append("                let p = sub.payload.as_slice();")
+    if n == 1:
+        lines.append("                assert!(p.len() == 1 && p[0] == b'0' + v0);")
+    else:
+        lines.append("                assert!(p.len() == %d && p[0] == b'[' && p[%d] == b']');" % (2 * n + 1, 2 * n))
+        for k in range(n):
+            lines.append("                assert!(p[%d] == b'0' + v%d);" % (1 + 2 * k, k))
+            if k < n - 1:
+                lines.append("                assert!(p[%d] == b',');" % (2 + 2 * k))
+    lines.append("            }")
+    lines.append("            Err(_) => assert!(false),")
+    lines.append("        }")
+    lines.append("        kani::cover!(true, \"end of harness reachable\");")
+    body = "\n    #[kani::proof]\n    #[kani::unwind(30)]\n    %s\n    fn %s() {\n%s\n    }\n" % (STUBS, hname, "\n".join(lines))
+    reg(hname, fx["feature"], props, tier, "SubMsgMethods::%s with a typed payload (%s): id, reply_on, and payload = canonical JSON of the argument%s (values < 10); the decode half needs a JSON parser and is uncovered" % (
+        e["name"], ", ".join(e["payload"]), "" if n == 1 else " tuple"), fx["mod"])
+    return body
+
+
 def emit_reply_fixture(fx):
     rs = fx["replies"]
     c = fx["contract"]
@@ -986,6 +1019,9 @@ def emit_reply_fixture(fx):
                 continue
             for recv in ("submsg", "wasm", "cosmos"):
                 out.append(submsg_harness(fx, e, recv, "c08_%s_%s_%s" % (mod, e["name"], recv), ["C08"] + px, tier if recv == "submsg" else "thorough"))
+    for e in table:
+        if e["payload"] != "raw" and fx.get("submsg", True):
+            out.append(typed_submsg_harness(fx, e, "c08_%s_%s_typed_builder" % (mod, e["name"]), ["C08"], "thorough"))
     if fx.get("data_cells"):
         for e in table:
             m = e["succ"]
